@@ -13,6 +13,7 @@ import (
 	"nhooyr.io/websocket"
 	"verif/harness/attach"
 	"verif/harness/fw"
+	"verif/harness/wire"
 	"verif/harness/xport"
 )
 
@@ -188,7 +189,22 @@ type c13RT struct {
 
 func (t c13RT) RoundTrip(r *http.Request) (*http.Response, error) { return t.fn(r) }
 
+// c13ServedOnce makes sure that this process has also been a SERVER - one that accepted, in each server mode, an
+// offer carrying both no_context_takeover flags - before it dials: what a Dial offers depends on its own
+// options, not on what the process negotiated earlier in another role.
+var c13ServedOnce sync.Once
+
 func c13Run(r *fw.R, d c13Desc) {
+	c13ServedOnce.Do(func() {
+		for _, m := range []websocket.CompressionMode{websocket.CompressionContextTakeover, websocket.CompressionNoContextTakeover} {
+			libEnd, peerEnd := xport.Pair(xport.Plan{NoTap: true}, xport.Plan{NoTap: true})
+			mode := m
+			if c, _, err := attach.Server(libEnd, attach.ServerOpts{Params: wire.Params{Deflate: true}, Mode: &mode, RawExt: "permessage-deflate; client_no_context_takeover; server_no_context_takeover"}); err == nil {
+				c.CloseNow()
+			}
+			peerEnd.Close()
+		}
+	})
 	r.SetSample(d)
 	respelled := int64(0)
 	defer func() { r.Count("responses_with_a_respelled_accept_value", respelled) }()
@@ -396,6 +412,7 @@ func c13CheckRequest(r *fw.R, d c13Desc, req *http.Request, hdr, hdrCopy http.He
 	// request are allowed), and in the no-context-takeover mode every offer carries both no_context_takeover flags.
 	// How the offer is spelled beyond that is the library's business.
 	gotExt := strings.ReplaceAll(strings.Join(ext, ","), " ", "")
+	takeoverOffered := false
 	okOffer := func() string {
 		if d.Mode == 0 {
 			if gotExt != "" {
@@ -439,6 +456,13 @@ func c13CheckRequest(r *fw.R, d c13Desc, req *http.Request, hdr, hdrCopy http.He
 			if d.Mode == 2 && !(seen["client_no_context_takeover"] && seen["server_no_context_takeover"]) {
 				return "the no-context-takeover mode offers " + offer
 			}
+			if d.Mode == 1 && !seen["client_no_context_takeover"] && !seen["server_no_context_takeover"] {
+				takeoverOffered = true
+			}
+		}
+		if d.Mode == 1 && !takeoverOffered {
+			// (further offers may be alternatives; one of them has to be what was asked for)
+			return "the context-takeover mode was requested but every offer asks for no_context_takeover"
 		}
 		return ""
 	}
